@@ -200,6 +200,17 @@ def execute(ctx, case):
                     if k2[1] == "ndarray":
                         C(_equal(memo[k2], again), "a repeated deterministic query returned a different result later in the history", "hist-repeat", query=k2[0], step=step)
     C(np.array_equal(pos, pos0) and np.array_equal(neg, neg0), "the constructor inputs were mutated by some query", "hist-ctor-args")
+    if not case["grouped"]:
+        # == is a deterministic query, too (and what callers use to compare objects): after the whole history the object still equals a
+        # reconstruction from the same inputs, and differs from an object with one field changed
+        kw_ = dict(nb_easy_pos=case["ep"], nb_easy_neg=case["en"], score_class=sc, equal_class=ec)
+        C(bool(s == Scores(pos0, neg0, **kw_)), "after the history the object no longer equals a reconstruction from the same inputs", "hist-eq-same")
+        variants = {"nb_easy_pos": Scores(pos0, neg0, **dict(kw_, nb_easy_pos=case["ep"] + 1)), "nb_easy_neg": Scores(pos0, neg0, **dict(kw_, nb_easy_neg=case["en"] + 1)),
+                    "equal_class": Scores(pos0, neg0, **dict(kw_, equal_class="neg" if ec == "pos" else "pos")), "score_class": Scores(pos0, neg0, **dict(kw_, score_class="neg" if sc == "pos" else "pos"))}
+        if len(pos0) and np.isfinite(np.nextafter(np.max(allv), np.inf)):
+            variants["one_score"] = Scores(np.concatenate([np.asarray(pos0, dtype=float)[:-1], [float(np.nextafter(np.max(allv), np.inf))]]), neg0, **kw_)  # a value no input score has
+        for nm_, o_ in variants.items():
+            C(not bool(s == o_) and not bool(o_ == s), "objects differing in one field compare equal", "hist-eq-differs", differs_in=nm_)
     # pointwise_cm: shape and argument preservation
     labels = np.concatenate([np.ones(len(pos), dtype=int), np.zeros(len(neg), dtype=int)])
     sv = np.concatenate([np.asarray(pos), np.asarray(neg)])
